@@ -49,7 +49,7 @@ func runQuicClientBatch(cfg qcCfg) {
 	issued := map[uint64]int{} // seq -> query length
 	seen := map[uint64]bool{}
 	var swg sync.WaitGroup
-	var qframes, empty atomic.Int64
+	var qframes, empty, resets atomic.Int64
 	var violated atomic.Bool
 	srvDone := make(chan struct{})
 	go func() { // harness peer
@@ -77,9 +77,13 @@ func runQuicClientBatch(cfg qcCfg) {
 				frames := d.Feed(data)
 				bad := ""
 				var seq uint64
+				if rerr != nil {
+					// reset / timed out before FIN: not a delivered message
+					resets.Add(1)
+					st.CancelWrite(0)
+					return
+				}
 				switch {
-				case rerr != nil:
-					bad = fmt.Sprintf("stream ended with %v after %d bytes", rerr, len(data))
 				case len(frames) != 1 || len(d.Rest()) != 0:
 					bad = fmt.Sprintf("%d bytes up to FIN: %d frame(s) and %d trailing byte(s)", len(data), len(frames), len(d.Rest()))
 				case len(frames[0]) < 13:
@@ -214,6 +218,7 @@ func runQuicClientBatch(cfg qcCfg) {
 	swg.Wait()
 	rep.Count("doq_client_query_frames_verified", qframes.Load())
 	rep.Count("doq_client_streams_without_data", empty.Load())
+	rep.Count("doq_client_streams_reset_before_fin", resets.Load())
 	if okN.Load() == 0 && !violated.Load() {
 		rep.Inconclusive("doq client batch: no exchange succeeded (%d errors)", errN.Load())
 	}
